@@ -48,7 +48,7 @@ impl HistCase {
 pub fn gen_case(seed: u64, hist: u64, p: &GenParams, plan: &str) -> HistCase {
     let mut r = Rng::new(seed);
     let mut p2 = p.clone();
-    if plan == "C02" && r.chance(1, 2) {
+    if (plan == "C02" || plan == "C06") && r.chance(1, 2) {
         // "when the chunk and cache limits differ between runs": tiny cache limits at the first open and at
         // every restart, so that reads after a restart are served from disk. These histories never re-append
         // at or below a removed log id (that pattern is C07's known finding D7).
@@ -495,6 +495,13 @@ impl<'a> Runner<'a> {
                     return Err(self.v("C02", "dump_changed_by_open", "directory dump differs after open".into()));
                 }
             }
+            (Op::Misc(k), Expect::Accept) => {
+                // read-only public calls in the middle of a history must not disturb it
+                let o = self.st.misc(*k);
+                if !o.is_ok() {
+                    return Err(self.v("C11", "dump_error", format!("misc call {} in the middle of a clean history: {}", k, o.brief())));
+                }
+            }
             (Op::Read(a, b), _) => {
                 let want = self.m.range(*a, *b);
                 match self.st.read(*a, *b) {
@@ -593,7 +600,13 @@ pub fn run_case(case: &HistCase, check_each: bool, final_restart: bool) -> (RunS
         Ok(mut r) => {
             r.check_each = check_each;
             for i in 0..case.steps.len() {
-                if let Err(v) = r.step(i) {
+                if let Err(mut v) = r.step(i) {
+                    // "continues to accept writes with the same semantics": once a restart has happened, a failure of
+                    // the lock-step oracle in a C02 history is a C02 failure
+                    if case.plan == "C02" && v.prop == "C01" && r.stats.restarts >= 1 {
+                        v.prop = "C02".into();
+                        v.sig = v.sig.replacen("C01:", "C02:after_restart:", 1);
+                    }
                     // an oracle of another property failed: note it, keep driving this history
                     // (its own oracles are still meaningful) unless the store is no longer usable
                     if v.prop != case.plan && v.prop != "HARNESS" && side.len() < 4 && !v.sig.contains("panic") {
@@ -664,6 +677,7 @@ pub fn plan_for(prop: &str) -> SeqPlan {
         "C06" => {
             p.reject_pm = 250;
             p.big_payloads = false;
+            p.sync_pm = 60;
             SeqPlan { params: p, check_each: true, final_restart: true, quick_histories: 200 }
         }
         "C16" => {
@@ -765,6 +779,17 @@ pub fn run_shard(ctx: &mut Ctx) {
     let mut h = 0u64;
     if ctx.prop == "C11" {
         check_file_names(ctx, &mut r);
+    }
+    if ctx.prop == "C06" || ctx.prop == "C16" {
+        // a partially ordered vote type (the tuple votes of the main harness types are totally ordered)
+        let n = if ctx.tier == Tier::Quick { 60 } else { 3000 };
+        crate::props::pvote::run(ctx, n, &mut r);
+    }
+    if ctx.prop == "C11" || ctx.prop == "C02" {
+        let n = if ctx.tier == Tier::Quick { 1 } else { 12 };
+        let t0 = ctx.t0;
+        let b = ctx.budget_s;
+        crate::props::maxbatch::run(&mut ctx.out, n, &mut r, &|| util::now_s() - t0 < b);
     }
     loop {
         if ctx.tier == Tier::Quick && h >= n_quick {
